@@ -11,6 +11,9 @@ type containerMetaList struct {
 	main       metaIterator
 	choiceCase *containerMetaList
 	s          *Selection
+
+	// error from the node when asked which case of a choice is selected, iteration stops there
+	err error
 }
 
 type metaIterator interface {
@@ -60,6 +63,10 @@ func newChoiceCaseIterator(s *Selection, m *meta.ChoiceCase) *containerMetaList 
 func (self *containerMetaList) nextMeta() meta.Meta {
 	var next = self.next
 	self.lookAhead()
+	if self.err != nil {
+		// looking ahead failed, caller checks err when it gets nothing
+		return nil
+	}
 	return next
 }
 
@@ -70,6 +77,12 @@ func (self *containerMetaList) lookAhead() {
 		if self.choiceCase != nil {
 			m = self.choiceCase.nextMeta()
 			if m == nil {
+				if self.choiceCase.err != nil {
+					self.err = self.choiceCase.err
+					self.main = nil
+					self.choiceCase = nil
+					break
+				}
 				self.choiceCase = nil
 				continue
 			}
@@ -83,7 +96,10 @@ func (self *containerMetaList) lookAhead() {
 		}
 		if choice, isChoice := m.(*meta.Choice); isChoice {
 			if chosen, err := self.s.Node.Choose(self.s, choice); err != nil {
-				panic(fmt.Sprintf("%T - %s", self.s.Node, err))
+				self.err = fmt.Errorf("%T - %w", self.s.Node, err)
+				self.main = nil
+				self.choiceCase = nil
+				break
 			} else if chosen != nil {
 				self.choiceCase = newChoiceCaseIterator(self.s, chosen)
 				continue
